@@ -46,9 +46,15 @@ V = [var(n) for n in "xyz"]
 
 # {{{ generators
 
+ATOMS = [p.Subscript(var("a"), 0), p.Call(var("f"), (var("x"),)), p.Lookup(var("o"), "b"),
+         p.Subscript(var("a"), (var("x"), 1))]
+
+
 def gpoly(r, d, neg_pow=False, quot=False):
     """polynomial / rational fragment"""
     if d <= 0 or r.random() < 0.2:
+        if r.random() < 0.12:   # polynomial atoms that are not variables: a[0], f(x), o.b
+            return r.choice(ATOMS)
         return r.choice([*V, r.randint(-3, 3), 1, 2, 0])
     ks = ["sum", "prod", "pow", "sum", "prod", "zero", "one", "nest"] + (["quot"] if quot else [])
     k = r.choice(ks)
@@ -440,7 +446,7 @@ def workload(ctx):
                 fs = []
                 for _ in range(rng.randint(1, 4)):
                     u = rng.random()
-                    v = rng.choice(V)
+                    v = rng.choice(V) if rng.random() < 0.8 else rng.choice(ATOMS)
                     fs.append(rng.randint(-3, 4) if u < 0.3 else v if u < 0.6
                               else p.Power(v, rng.randint(2, 3)) if u < 0.85
                               else p.Quotient(1, p.Sum((v, 1))) if u < 0.93
